@@ -988,8 +988,13 @@ func (self *_Assembler) mem_clear_rem(size int64, ptrfree bool) {
 	self.Emit("MOVQ", jit.Sib(_ST, _AX, 1, 0), _AX) // MOVQ    (ST)(AX), AX
 	self.Emit("SUBQ", _VP, _AX)                     // SUBQ    VP, AX
 	self.Emit("ADDQ", _AX, _BX)                     // ADDQ    AX, BX
-	self.Emit("MOVQ", _VP, _AX)                     // MOVQ    VP, (SP)
-	self.mem_clear_fn(ptrfree)                      // CALL_GO memclr{Has,NoHeap}Pointers
+	/* nothing left to clear: VP is one past the end of the array and may be the
+	 * base of the next (free) heap slot, which the write barrier must not look at */
+	self.Emit("TESTQ", _BX, _BX)       // TESTQ   BX, BX
+	self.Sjmp("JZ", "_clear_done_{n}") // JZ      _clear_done_{n}
+	self.Emit("MOVQ", _VP, _AX)        // MOVQ    VP, (SP)
+	self.mem_clear_fn(ptrfree)         // CALL_GO memclr{Has,NoHeap}Pointers
+	self.Link("_clear_done_{n}")       // _clear_done_{n}:
 }
 
 /** Map Assigning Routines **/
